@@ -45,6 +45,7 @@
 #include "awkward/virtual/ArrayCache.h"
 #include "awkward/partition/PartitionedArray.h"
 #include "awkward/partition/IrregularlyPartitionedArray.h"
+#include "awkward/type/Type.h"
 #include "awkward/builder/ArrayBuilder.h"
 #include "awkward/forth/ForthMachine.h"
 #include "awkward/forth/ForthInputBuffer.h"
@@ -687,6 +688,16 @@ static std::string run_op(const std::string& op, Toks& tk, ContentPtr& result) {
     ContentPtr x = input_layout(tk);
     result = x.get()->getitem_fields(keys);
   }
+  else if (op == "setitem_field") {
+    std::string where = tk.next();
+    ContentPtr what = input_layout(tk);
+    ContentPtr x = input_layout(tk);
+    RecordArray* rec = dynamic_cast<RecordArray*>(x.get());
+    if (rec == nullptr) throw std::logic_error("driver: setitem_field needs a RecordArray");
+    bool isnum = !where.empty() && where.find_first_not_of("0123456789") == std::string::npos;
+    if (isnum && rec->istuple()) result = rec->setitem_field((int64_t)strtoll(where.c_str(), nullptr, 10), what);
+    else result = rec->setitem_field(where, what);
+  }
   else if (op == "carry") {
     int64_t n = tk.i64();
     Index64 c = mkindex<int64_t>(tk, n);
@@ -872,6 +883,47 @@ static std::string run_op(const std::string& op, Toks& tk, ContentPtr& result) {
     bool hasform = (gen.get()->form().get() != nullptr);
     bool peek = (v.peek_array().get() != nullptr);
     out << "(" << (raised ? "True" : "False") << "," << (hasform ? "True" : "False") << "," << (peek ? "True" : "False") << ")";
+    return out.str();
+  }
+  else if (op == "typeinfo") {
+    // typeinfo <a|_> <b|_> layout : item type of the array, of its form, of a range slice, of its first element; depth
+    // and field queries.  Type strings are hex-encoded (they contain quotes and spaces).
+    std::string sa = tk.next(), sb = tk.next();
+    int64_t ra = (sa == "_") ? Slice::none() : strtoll(sa.c_str(), nullptr, 10);
+    int64_t rb = (sb == "_") ? Slice::none() : strtoll(sb.c_str(), nullptr, 10);
+    ContentPtr x = input_layout(tk);
+    util::TypeStrs ts;
+    ts["char"] = "char"; ts["byte"] = "byte"; ts["string"] = "string"; ts["bytestring"] = "bytes";
+    auto hex = [](const std::string& t) {
+      std::string o = "S('";
+      char b[4];
+      for (unsigned char c : t) { snprintf(b, 4, "%02x", c); o += b; }
+      return o + "')";
+    };
+    TypePtr ta = x.get()->type(ts);
+    FormPtr f = x.get()->form(true);
+    TypePtr tf = f.get()->type(ts);
+    ContentPtr sl = x.get()->getitem_range(ra, rb);
+    TypePtr tsl = sl.get()->type(ts);
+    std::string elem = "None";
+    if (x.get()->length() > 0) {
+      ContentPtr e = x.get()->getitem_at_nowrap(0);
+      NumpyArray* raw = dynamic_cast<NumpyArray*>(e.get());
+      if (dynamic_cast<None*>(e.get())) elem = "'missing'";
+      else if (dynamic_cast<Record*>(e.get())) elem = "'record'";
+      else if (raw != nullptr && raw->isscalar()) elem = "'scalar'";
+      else elem = hex(e.get()->type(ts).get()->tostring());
+    }
+    std::pair<int64_t, int64_t> mm = x.get()->minmax_depth();
+    out << "(" << hex(ta.get()->tostring()) << "," << hex(tf.get()->tostring()) << ","
+        << (ta.get()->equal(tf, true) ? "True" : "False") << "," << hex(tsl.get()->tostring()) << "," << elem << ","
+        << x.get()->purelist_depth() << "," << mm.first << "," << mm.second << ","
+        << (x.get()->purelist_isregular() ? "True" : "False") << "," << x.get()->numfields() << ",[";
+    if (x.get()->numfields() > 0) {
+      std::vector<std::string> ks = x.get()->keys();
+      for (size_t i = 0; i < ks.size(); i++) { if (i) out << ","; out << hex(ks[i]); }
+    }
+    out << "])";
     return out.str();
   }
   else if (op == "both") {
